@@ -39,6 +39,7 @@ Sweep: C14.1 / C14.2 / C14.5 every errno test in the managers and the network se
 Sixth round: C14.4 an address given back by the network service is also dropped from its remembered devices.
 Seventh round: C14.1 on EEXIST the routine gives up unless the recorded owner (the basename the link resolves to) equals the caller's owner parameter itself - no derived or partial comparison.
 Eighth round: C14.2 every unlink_all of the runtime package names the container as owner.
+Tenth round: C14.1 the owner an existing link is compared with on EEXIST is the parameter the new link is made to point at (sibling agreement of the three create routines; F31: create_spec compared with the instance name, repaired in /repo); C14.4 the claimer of the address manager is found by role.
 Does NOT decide reachable-state invariants under concurrent owners.
 """
 
@@ -110,6 +111,22 @@ def _create(ctx, vip, rule, epm):
                'the create routine handles EEXIST explicitly',
                construct='EEXIST handler of %s' % func.qualname)
         defs = _local_defs(func)
+        # the parameter(s) the new link is made to point at: "the caller"
+        # of the tolerance below is *that* owner, not any parameter (the
+        # instance name a spec is filed under is not its owner)
+        linked = set()
+        for lk in links:
+            if lk.args:
+                todo = [lk.args[0]]
+                seen_ = set()
+                while todo:
+                    cur = todo.pop()
+                    for nm in N.mentions(cur):
+                        if nm in func.params():
+                            linked.add(nm)
+                        elif nm in defs and nm not in seen_:
+                            seen_.add(nm)
+                            todo.extend(defs[nm])
         for test in tests:
             for edge in test.succ:
                 if edge.kind != 'true':
@@ -117,12 +134,13 @@ def _create(ctx, vip, rule, epm):
                 # from the EEXIST branch the normal exit is reached only by
                 # (a) return False, or (b) the false edge of an
                 # `existing_owner != <caller>` test
-                def same_owner(e, func=func, defs=defs):
+                def same_owner(e, func=func, defs=defs, linked=linked):
                     # <what the existing link records> == <a parameter of
                     # the routine>, both as they are (a comparison of parts
                     # of them - the instance without the container id -
                     # takes a link of another container for the caller's)
-                    params = set(func.params())
+                    params = set(func.params()) & linked if linked \
+                        else set(func.params())
                     for atom in nz.facts_of_edge(e):
                         if not (atom.key[0] == 'cmp' and
                                 atom.key[1] == '==' and
@@ -646,6 +664,9 @@ _E = 'lib/python/treadmill/endpoints.py'
 _N = 'lib/python/treadmill/services/network_service.py'
 
 MUTANTS = [
+    ('revert-F31-spec-tolerated-by-instance-name', [(_E, """                    if existing_owner != os.path.basename(owner):
+""", """                    if existing_owner != appname:
+""")], 'C14.1'),
     ('vip-alloc-takes-over', [(_V, """            os.symlink(os.path.relpath(owner_file, self._base_path), ip_file)
             _LOGGER.debug('Allocated %r for %r', new_ip, owner)
         except OSError as err:
